@@ -2270,6 +2270,14 @@ class Interp:
             return CALL_PUSHED
         if isinstance(closure, FnVal):
             r = closure.c.get('resolved') or closure.c
+            summ = self.opts.summaries.get(r['fn'])
+            if summ is not None:
+                # a summarised function passed as a value (e.g. `unwrap_or_else(RoundingMode::default)`): apply the summary as at a direct call
+                val = summ(self, st, list(cargs), r['fn'])
+                if on_return is not None:
+                    val = on_return(self, st, val)
+                self.finish_call(st, fr, dest, target, val)
+                return CALL_PUSHED
             fn = self.db.fns.get(r['fn'])
             if fn is None:
                 raise Stop('call of external fn item %s' % r['path'])
